@@ -62,8 +62,15 @@ func (g *schemaGenerator) generateRootType() error {
 	}
 
 	rootTypeName := g.getRootTypeName(g.schema, g.schemaFileName)
-	if _, ok := g.output.declsByName[rootTypeName]; ok {
-		return nil
+
+	// The root may have been generated already, through a reference to this document. A different
+	// schema that merely has the same name (a definition called like the root type) must not make the
+	// root disappear: it is declared under the next free name, like any other duplicate.
+	if decl, ok := g.output.declsByName[rootTypeName]; ok {
+		if _, generated := g.output.declsBySchema[(*schemas.Type)(g.schema.ObjectAsType)]; generated ||
+			decl.SchemaType == (*schemas.Type)(g.schema.ObjectAsType) {
+			return nil
+		}
 	}
 
 	return g.generateUnreferencedType((*schemas.Type)(g.schema.ObjectAsType), newNameScope(rootTypeName))
